@@ -113,7 +113,7 @@ func style(t *rapid.T) *gen.Style {
 	st.QuoteNames = rapid.IntRange(0, 3).Draw(t, "quote") == 0
 	st.TrailingComma = rapid.IntRange(0, 3).Draw(t, "tcomma") == 0
 	st.NL = rapid.SampledFrom([]string{"\n", "\n", "\r\n", "\r"}).Draw(t, "nl")
-	st.Comments = rapid.SampledFrom([]int{0, 0, 1, 2, 3}).Draw(t, "comments")
+	st.Comments = rapid.SampledFrom([]int{0, 0, 1, 2, 3, 4}).Draw(t, "comments")
 	st.EmptyAnn = rapid.SampledFrom([]int{0, 0, 1, 2, 3}).Draw(t, "emptyAnn")
 	st.NoteNextLine = rapid.IntRange(0, 2).Draw(t, "noteNextLine") == 0
 	st.JoinLines = rapid.IntRange(0, 2).Draw(t, "joinLines") == 0 // effective when comments and empty annotations are off
